@@ -28,10 +28,10 @@ PKG = "yv-c08"
 
 TIERS = {
     # cfgs: exhaustive catalogues; sim: (num per worker, workers, depth); harness exploration options
-    "quick": {"cfgs": ["MC_Subshell_quick.cfg"], "sim": (150, 4, 40),
+    "quick": {"cfgs": ["MC_Subshell_quick.cfg", "MC_Subshell_all1.cfg"], "sim": (100, 4, 40),
               "explore": ["--plans", "6", "--dfs-max", "2", "--random", "0"],
               "explore_sim": ["--plans", "8", "--dfs-max", "2", "--random", "1"]},
-    "thorough": {"cfgs": ["MC_Subshell_quick.cfg", "MC_Subshell_core3.cfg"], "sim": (2500, 4, 40),
+    "thorough": {"cfgs": ["MC_Subshell_all2.cfg", "MC_Subshell_core3.cfg"], "sim": (2500, 4, 40),
                  "explore": ["--plans", "12", "--dfs-max", "4", "--random", "2"],
                  "explore_sim": ["--plans", "16", "--dfs-max", "3", "--random", "2"]},
 }
@@ -47,7 +47,7 @@ def _judge(trace, shards=8, timeout=1500):
     n = len(lines)
     if n == 0:
         return 0, [], 0.0
-    shards = max(1, min(shards, (n + 499) // 500))
+    shards = max(1, min(shards, (n + 1999) // 2000))
     size = (n + shards - 1) // shards
     parts = []
     for k in range(shards):
@@ -55,8 +55,17 @@ def _judge(trace, shards=8, timeout=1500):
         if a >= b:
             break
         p = f"{trace}.shard{k}"
+        # lossless compression: an `init` map equal to that of the shard's first record is
+        # replaced by {"same": "1"} (Trace_Subshell reads Rec[1].init then)
+        first = None
         with open(p, "w") as f:
-            f.writelines(lines[a:b])
+            for line in lines[a:b]:
+                j = json.loads(line)
+                if first is None:
+                    first = j["init"]
+                elif j["init"] == first:
+                    j["init"] = {"same": "1"}
+                f.write(json.dumps(j) + "\n")
         parts.append((a, b, p))
     t0 = time.time()
 
@@ -158,7 +167,7 @@ def run(tier):
 
     for c in cfg["cfgs"]:
         cat = os.path.join(wd, c + ".catalogue.ndjson")
-        r = vlib.tlc("Subshell", c, workers=8, json_out=cat, coverage=(c == "MC_Subshell_quick.cfg"), timeout=3000)
+        r = vlib.tlc("Subshell", c, workers=8, json_out=cat, coverage=(c in ("MC_Subshell_quick.cfg", "MC_Subshell_all2.cfg")), timeout=3000)
         vlib.tlc_must_pass(r, f"model check {c}")
         n = vlib.count_lines(cat)
         vlib.log(f"[tlc] {c}: {r.distinct} distinct states, {r.generated} generated, depth {r.depth}, "
@@ -183,7 +192,7 @@ def run(tier):
         if not samples:
             with open(rec) as f:
                 for i, line in enumerate(f):
-                    if i in (3, 4000, 12000):
+                    if i in (3, 1500, 4000):
                         j = json.loads(line)
                         j.pop("init", None)
                         samples.append(j)
